@@ -139,7 +139,17 @@ fn verif_close_sender_transmission() {
     let (mut s, pre) = any_closing();
     kani::assume(pre.transmitting);
     let mut path = helper_path_server();
-    path.on_handshake_packet();
+    // the client's address may still be unvalidated when the server closes: the close packet is
+    // then sent out of (and debited from) the anti-amplification allowance like every other packet
+    let validated: bool = kani::any();
+    let received: usize = kani::any();
+    kani::assume(received >= 2 && received <= 3);
+    if validated {
+        path.on_handshake_packet();
+    } else {
+        let _ = path.on_bytes_received(received);
+    }
+    assert!(!path.at_amplification_limit());
     let mut publisher = Publisher::no_snapshot();
     let mut buffer = [0u8; 16];
     let now = at(0);
@@ -147,6 +157,13 @@ fn verif_close_sender_transmission() {
         .transmission(&mut path, now, &mut publisher)
         .write_payload(tx::PayloadBuffer::new(&mut buffer), 0);
     assert!(len == Ok(5));
+    if !validated {
+        // 3 x received credited, 5 bytes sent: 6 - 5 leaves 1, 9 - 5 leaves 4; one more byte of
+        // anything uses up the former but not the latter - observable through the gate
+        path.on_bytes_transmitted(1);
+        assert!(path.at_amplification_limit() == (received == 2));
+        kani::cover!(received == 2, "close packet exhausted the allowance");
+    }
     let k: usize = kani::any();
     kani::assume(k < 5);
     assert!(buffer[k] == PACKET[k]);
